@@ -1,3 +1,4 @@
+import builtins
 import einx._src.tracer as tracer
 import numpy as np
 from collections import defaultdict
@@ -633,7 +634,9 @@ def compile(object, return_code=False):
 
     locals_globals = {**name_to_constant}
     try:
-        exec(exec_code, locals_globals, locals_globals)
+        # The generated code checks values that only exist at run time (e.g. the output of a tensor factory) with assert
+        # statements. Compile it without optimization so that these checks are kept when Python runs with -O.
+        exec(builtins.compile(exec_code, "<string>", "exec", optimize=0), locals_globals, locals_globals)
         compiled_object = eval(eval_code, locals_globals, locals_globals)
     except Exception as e:
         message = "The code that was created for this operation failed to compile. The following code was generated:\n"
